@@ -131,6 +131,8 @@ pub struct World {
     pub next_serial: u64,
     /// when true, failed mmap events are only counted/digested, not stored
     pub compact_failed_mmap: bool,
+    /// a simulated SIGSEGV that happened while the thread was already unwinding
+    pub pending_segv: Option<SimSegv>,
 }
 
 #[derive(Debug, Clone, Copy)]
@@ -167,6 +169,7 @@ impl World {
             digest: 0x1234_5678,
             next_serial: 1,
             compact_failed_mmap: true,
+            pending_segv: None,
         }
     }
 
